@@ -340,7 +340,7 @@ func c12GenPool(r *mon.Rng, kind string) c11Pool {
 	switch kind {
 	case "c":
 		// sharing is the point: allOf users, or-types, regex types
-		switch r.Intn(5) {
+		switch r.Intn(7) {
 		case 0:
 			p.Families = append(p.Families, curated(0))
 		case 1:
@@ -348,7 +348,9 @@ func c12GenPool(r *mon.Rng, kind string) c11Pool {
 		case 2:
 			p.Families = append(p.Families, curated(2))
 		case 3:
-			p.Families = append(p.Families, curated(6))
+			p.Families = append(p.Families, curated(7))
+		case 4, 5:
+			p.Families = append(p.Families, curated(6)) // derived types of their own over shared bases
 		default:
 			p.Families = append(p.Families, c12GraphFamily(r, true, &p.Docs))
 		}
@@ -364,7 +366,7 @@ func c12GenPool(r *mon.Rng, kind string) c11Pool {
 	p.Families = append(p.Families, curated(4))
 	// documents: conforming and near-miss ones for curated roots come from the curated list
 	for len(p.Docs) < 6 {
-		p.Docs = append(p.Docs, mon.Pick(r, c11CuratedDocs[:15]))
+		p.Docs = append(p.Docs, mon.Pick(r, c11CuratedDocs[:18]))
 	}
 	p.Enums = []string{c11CuratedEnums[0], c11CuratedEnums[1], c11CuratedEnums[3]}
 	p.Regexes = []string{c11CuratedRegexes[0], c11CuratedRegexes[2], c11CuratedRegexes[4]}
